@@ -305,3 +305,25 @@ func (l *VerifLive) RecordWrites() *[]VerifWriteRec {
 	l.C.w = &verifRecWriter{inner: l.C.w, log: log}
 	return log
 }
+
+// VerifDebouncer drives a real eventDebouncer: Debounce(tag) hands it a status-change frame carrying tag;
+// every batch the debouncer dispatches is reported to the callback as the list of tags.
+type VerifDebouncer struct{ d *eventDebouncer }
+
+func VerifNewEventDebouncer(cb func(tags []string)) *VerifDebouncer {
+	d := newEventDebouncer("verif", func(frames []frame) {
+		var tags []string
+		for _, f := range frames {
+			if s, ok := f.(*statusChangeEventFrame); ok {
+				tags = append(tags, s.change)
+			} else {
+				tags = append(tags, "?")
+			}
+		}
+		cb(tags)
+	}, VerifNopLogger{})
+	return &VerifDebouncer{d}
+}
+
+func (v *VerifDebouncer) Debounce(tag string) { v.d.debounce(&statusChangeEventFrame{change: tag}) }
+func (v *VerifDebouncer) Stop()               { v.d.stop() }
